@@ -165,7 +165,8 @@ MemoStep(e) ==
 (* timeouts, end of input, exit.                                           *)
 (***************************************************************************)
 TimeoutFails(e) ==
-  IF e.waiting = "bestmove" THEN {<<"C08", "go-never-answered", D(<<s.cmd, IF s.go.active THEN s.go.line ELSE "">>)>>}
+  IF e.waiting = "bestmove" THEN {<<"C08", "go-never-answered", D(<<s.cmd, IF s.go.active THEN s.go.line ELSE "">>)>>,
+                                  <<"C03", "go-without-bestmove", D(<<s.cmd, IF s.go.active THEN s.go.line ELSE "">>)>>}
   ELSE IF e.waiting = "readyok" THEN {<<"C17", "isready-never-answered", D(s.cmd)>>}
   ELSE {<<"C17", "handshake", "">>}
 
@@ -208,10 +209,11 @@ PosDumpFails(e) ==
            THEN {<<"C10", "record-in-loop", D(<<s.cmd, [j \in 1..Len(e.table) |-> e.table[j][2]]>>)>>} ELSE {})
 
 Fails(e) ==
-  IF s.skip /\ e.ev \in {"out", "timeout", "posdump"} THEN {} ELSE
+  IF s.skip /\ e.ev \in {"out", "timeout", "closed", "posdump"} THEN {} ELSE
   CASE e.ev = "in" -> InFails(e)
     [] e.ev = "out" -> OutFails(e)
     [] e.ev = "timeout" -> TimeoutFails(e)
+    [] e.ev = "closed" -> TimeoutFails(e)      \* the engine's stdout ended while an answer was awaited
     [] e.ev = "exit" -> ExitFails(e)
     [] e.ev = "slice" -> SliceFails(e)
     [] e.ev = "posdump" -> PosDumpFails(e)
@@ -222,6 +224,7 @@ Step(e) ==
     [] e.ev = "in" -> InStep(e)
     [] e.ev = "out" -> OutStep(e)
     [] e.ev = "timeout" -> [s EXCEPT !.go = NoGo, !.ready = FALSE]
+    [] e.ev = "closed" -> [s EXCEPT !.go = NoGo, !.ready = FALSE]
     [] e.ev = "eofin" -> [s EXCEPT !.eof = TRUE, !.tend = e.t]
     [] e.ev = "exit" -> [s EXCEPT !.dead = TRUE]
     [] OTHER -> s
